@@ -23,3 +23,19 @@ reg("C37", "model_checking", "E2",
     "checked after every transition, each transition being the real method on a copy of the real object.",
     "Canonical state keeps node-list order, sorted list and successor-list order; drops names and the order of lists used "
     "only through membership. Removal protocol as documented in DiGraph.remove_nodes.")
+
+reg("C01", "exploration", "E1",
+    "bounded exhaustive enumeration of splitter trees x list lengths against a reference expansion",
+    "All 1553 ordered splitter trees over <=4 fields (every label permutation, bracketing and list/tuple node type) x every "
+    "length assignment 0-3 at the State seam (385k cases), and the public Task.split(...)(cache_root) path for k<=2 "
+    "(thorough k<=3) complete plus all k=3 (k=4) trees at fixed lengths; outputs, per-job inputs, the unsplit field, the "
+    "execution log and early rejection of unequal inner splits are compared with an independent product/zip reference.",
+    "Reference vt/ref/splitter.py written from the statement. Tuples that pair a whole product with something else are "
+    "don't-care (statement silent): rejection or positional pairing accepted.")
+reg("C02", "exploration", "E1",
+    "bounded exhaustive enumeration of splitter trees x combiner subsets x lengths against a reference partition",
+    "Every splitter tree over <=4 fields x every non-empty combiner subset (both listing orders) x lengths 1-3 (quick: "
+    "1-2 for k=4) at the State seam, and the public split().combine() path for k<=2 complete and all k=3 trees; group "
+    "membership, group order, order inside groups and flat-vs-nested shape compared with the reference partition.",
+    "Reference closure: combining a field combines every field under the same outermost inner product. Product-pairing "
+    "tuples: only the partition property is required.")
